@@ -156,6 +156,7 @@ func runC08(c *core.Ctx) {
 	std := loadStd(c, cb)
 	std = append(std, loadCorpus(c, cb, "protocol")...)
 	nPub, nGuarded, nNoSelf, nCoro, nArgChecked, nDerived, nInit := 0, 0, 0, 0, 0, 0, 0
+	brk := ioBracketStats{}
 	for _, p := range std {
 		src, err := os.ReadFile(p.CPath)
 		if err != nil {
@@ -182,6 +183,7 @@ func runC08(c *core.Ctx) {
 			if checkDerived(c, fn) {
 				nDerived++
 			}
+			reportIOBrackets(c, fn, &brk)
 			if !f.Public() {
 				continue
 			}
@@ -236,6 +238,7 @@ func runC08(c *core.Ctx) {
 	c.Floor("G3", "public coroutines", nCoro, 60)
 	c.Floor("G5", "functions with derived I/O pointers", nDerived, 100)
 	c.Floor("G6", "initializers", nInit, 28)
+	c.Floor("G9", "saved derived I/O bounds (io_bind / io_limit / io_forget_history blocks)", brk.vars, 20)
 
 	runC08CallSeq(c, std)
 	runC08Cgen(c)
